@@ -14,8 +14,8 @@ GLUE = ("Trusted: Coq kernel, extraction (ExtrOcamlBasic only), ocaml/driver.ml,
 
 CHECKS = {
  "C01": C("proof",
-   "Partial proof. Theorems coq/props/C01.v establish the components the refinement rests on, each for all inputs: storage semantics (read-after-write, non-interference of disjoint writes, write at the end appends, delete zero-fills or truncates exactly as random-access-memory, shrink-then-grow exposes zeros); journal order of an append (block data at offset = byte length, then the oplog entry, then the flush group, header, truncate); the byte-offset walk over a tree whose lookups return consistent sizes equals the sum of the roots and leaves strictly left of the block; reference-tree node sizes are the block-size sums (with C05: the tree built by any batching IS the reference tree; C08: has() is the range semantics; C13: get of a missing block has no side effect). NOT proved: the single end-to-end refinement theorem across flush / reopen / replay. That composition is decided on every run by the Coq model executed against the crate (observations and storage journals compared operation by operation) under the list-model oracle: corpus, bounded-exhaustive histories over a 9-letter alphabet, seeded random histories with reopen after arbitrary prefixes, a core crossing 8192 and 32768 blocks.",
-   "DESIGN.md 6.1", GLUE, "Coq proofs of the components + correspondence check of the executable model + list-model oracle"),
+   "Theorems coq/props/C01.v. PROVED END TO END for the fragment {append, batch append (empty batches and empty blocks included), get, has, info} from the creation of a writer, for every sequence of flush decisions: the observations of the model equal those of the append-only list model (get i = the i-th appended block or None; length = count; byte length = total size; contiguous length = count), reads touch neither core nor disk nor journal. The invariant (tree = reference tree with every full node found by lookup in the unflushed map or the tree store; bitfield = [0,n); data file = concatenation of the blocks) is established by creation and preserved by every append, including across flushes that move nodes to the store. Hypotheses, all satisfiable and exhibited by an Example: the hash returns 32 bytes and never 32 zero bytes (the crate treats an all-zero hash as a blank node; Refine.v shows the model failing without it), totals below 2^64; the only other outcome allowed is the crate's own panic for an oplog entry above 2^30 bytes. Also proved: storage semantics including delete, journal order of an append, byte offset = prefix sum. NOT yet proved: clears and close/reopen (proof files ClearRefine.v / Reopen.v in progress). Those parts are decided on every run by the model executed against the crate (observations and storage journals compared operation by operation) under the list-model oracle: corpus, bounded-exhaustive histories, random histories with clears and reopen after arbitrary prefixes, epoch histories with equal-sized entries, a core crossing 8192 and 32768 blocks.",
+   "DESIGN.md 6.1", GLUE, "Coq proof (refinement invariant preserved by every append, list-model equality of observations) + correspondence check + list-model oracle"),
  "C02": C("proof",
    "Partial proof. Theorems coq/props/C02.v, at the level of the oplog file content and Oplog::open, assuming only that the CRC fits 32 bits: from any stable state (both header slots valid, or one invalid; entries carrying the current entry bit), for an append of one entry, for a flush (header into the non-current slot, then truncate) and for make_read_only (slot, truncate, slot, truncate), EVERY cut point of the operation's storage journal reopens to exactly the (header, entries) before the operation or exactly the one after it, and the final state is stable again, so the argument iterates over any history; entries of the previous epoch are never replayed and are cut off by open; in make_read_only the entries are gone before the second slot is rewritten (repaired defect D20, with the counterfactual); a crash during creation reopens as empty storage. With C08_replay_exact (bitfield and contiguous length replayed over any mixture of old and new pages) and C01_append_journal_order (data, then entry, then flush group, then header, then truncate). NOT proved: the tree and data stores and the composition with Hypercore::new over all four stores. That composition is decided on every run: every crash point (all journal prefixes, singleton and co-singleton subsets of the unordered flush group) of every generated history is recovered on the crate and on the model, judged by the before-or-after oracle and continued (append/clear, reopen, read everything).",
    "DESIGN.md 6.2", GLUE, "Coq proof (write-ahead-log argument on the oplog content) + crash-point enumeration on crate and model"),
